@@ -46,6 +46,51 @@ NTOK = 96
 _EQ_LEAVES = {64: 2, 65: 2.0, 66: 1, 67: True, 68: 1.0, 69: 0, 70: 0.0}
 
 
+class _Odd:
+    """scalar leaves with unhelpful equality: remap must treat leaves by identity, never compare them"""
+    def __init__(self, name):
+        self.name = name
+
+    def __repr__(self):
+        return "<odd %s>" % self.name
+
+    def __deepcopy__(self, memo):
+        return self
+
+
+class _AlwaysEq(_Odd):
+    def __eq__(self, other):
+        return True
+
+    def __hash__(self):
+        return 1
+
+
+class _NeverEq(_Odd):
+    def __eq__(self, other):
+        return False
+
+    def __hash__(self):
+        return 2
+
+
+class _EqRaises(_Odd):
+    def __eq__(self, other):
+        raise RuntimeError("leaves must not be compared")
+    __hash__ = None
+
+    def __bool__(self):
+        raise RuntimeError("leaves must not be tested for truth")
+
+    def __len__(self):
+        raise RuntimeError("leaves have no len")
+
+
+# only ever placed where no hashing/equality is needed (not in sets, not as replacement values)
+_ODD_LEAVES = {71: float("nan"), 72: _AlwaysEq("always-eq"), 73: _NeverEq("never-eq"), 74: _EqRaises("eq-raises"),
+               75: _Odd("plain"), 76: iter(())}
+
+
 def leaf(n):
     if n == 0:
         return None
@@ -57,6 +102,8 @@ def leaf(n):
         return b""
     if n in _EQ_LEAVES:
         return _EQ_LEAVES[n]
+    if n in _ODD_LEAVES:
+        return _ODD_LEAVES[n]
     f = n % 4
     if f == 0:
         return 1000 + n
@@ -90,6 +137,8 @@ _ODD_KEYS = {9: "", 10: (), 11: b"", 12: frozenset()}
 
 
 def _tkey(o):
+    if type(o).__name__ == "tuple_iterator":
+        return ("tuple_iterator", "")
     return (type(o).__name__, repr(o))
 
 
@@ -496,8 +545,11 @@ def gen_key(rng):
     return ["T", rng.randint(0, 12)]
 
 
-def gen_leaf(rng):
+def gen_leaf(rng, odd=False):
     r = rng.random()
+    if odd and r > 0.93:
+        return rng.randint(71, 76)                               # leaves with unhelpful __eq__/__bool__/hash
+
     if r < 0.15:
         return rng.choice([1, 64, 65, 66, 67, 68, 69, 70])      # equal-but-different leaves
     return rng.randrange(24) if r < 0.85 else rng.randrange(64)
@@ -587,7 +639,7 @@ def gen_graph(rng, max_nodes, max_depth):
             if cands:
                 return ["N", rng.choice(cands)]
         if r < 0.52 or depth >= max_depth or len(nodes) >= max_nodes:
-            return ["L", gen_leaf(rng)]
+            return ["L", gen_leaf(rng, odd=not need_hash)]
         return new_node(depth, need_hash, anc)
 
     root = new_node(0, False, [])
@@ -702,7 +754,7 @@ def gen_deep(rng, depth):
     for d in range(depth):
         kids = []
         if rng.random() < 0.3:
-            kids.append(["L", gen_leaf(rng)])
+            kids.append(["L", gen_leaf(rng, odd=True)])
         if d + 1 < depth:
             kids.append(["N", d + 1])
         else:
